@@ -71,9 +71,9 @@ def gen_knobs(rng, mp=None):
 def gen_contents(rng, blksize, n, big=False):
     b = blksize or 4096
     sizes = [0, 1, b - 1, b, b + 1, 2 * b - 1, 2 * b, 2 * b + 1, 3 * b + rng.randrange(0, b)]
-    sizes = [s for s in sizes if 0 <= s <= 70000]
+    sizes = [s for s in sizes if 0 <= s <= 140000]
     if big:
-        sizes += [5 * b + 3, 40000 + rng.randrange(100)]
+        sizes += [5 * b + 3, 40000 + rng.randrange(100), 65535, 65536, 65537, 131073]
     out = []
     seen = set()
     while len(out) < n:
